@@ -3,7 +3,8 @@ import random
 from collections import Counter
 import common, gen, pool
 
-THEOREMS = ["Frame.frame", "Frame.generated_frame_ok_gasol_optimization", "Frame.generated_frame_ok_ir_block"]
+THEOREMS = ["Frame.frame", "Frame.generated_frame_ok_gasol_optimization", "Frame.generated_frame_ok_ir_block", "Frame.generated_class_state_ok",
+            "Frame.generated_defaults_ok"]
 
 
 def run(tier):
@@ -31,6 +32,16 @@ def run(tier):
                 tasks.append({"kind": "history", "text": b, "opts": opts, "history": [" ".join(toks[:-1]) + " ISZERO", b + " PUSH1 0x1 ADD"], "fresh": True, "role": "after-twins", "timeout": 120})
             for k in ((1, 8) if tier == "quick" else (1, 5, 30)):
                 tasks.append({"kind": "history", "text": b, "opts": opts, "history": rng.sample(pool_h, k), "fresh": True, "role": "after-%d" % k, "timeout": 120})
+        # a value loaded before a store and needed after it (the back end has to keep it), then blocks in which the same specification
+        # names stand for cheap values used more than once
+        keepers = ["PUSH1 0x40 MLOAD SWAP1 DUP2 MSTORE PUSH1 0x20 ADD", "PUSH1 0x0 SLOAD DUP1 PUSH1 0x1 ADD PUSH1 0x0 SSTORE", "DUP1 MLOAD SWAP2 DUP3 MSTORE ADD"] + \
+            rng.sample(gen.load_store_corpus(), 4)
+        cheap = ["CALLER DUP1 SWAP2 SSTORE CALLER", "ADDRESS DUP1 SWAP2 SSTORE ADDRESS", "PUSH1 0x1 DUP1 SWAP2 SSTORE PUSH1 0x1", "CALLER DUP1 DUP3 MSTORE SWAP1 POP CALLER",
+                 "CALLVALUE DUP1 SWAP2 MSTORE CALLVALUE DUP1 ADD", "PUSH1 0x5 CALLER DUP2 SWAP3 SSTORE CALLER ADD"]
+        for q in cheap:
+            tasks.append({"kind": "history", "text": q, "opts": opts, "history": [], "fresh": True, "role": "fresh", "timeout": 60})
+            for kp in keepers:
+                tasks.append({"kind": "history", "text": q, "opts": opts, "history": [kp], "fresh": True, "role": "after-keeper", "timeout": 120})
         res = pool.run_tasks(tasks, timeout=120)
         ref = {}
         for t, r, st in res:
